@@ -4,7 +4,7 @@ integers (`n` at `d` decimals stands for the float `n / 10^d`, which Python's `f
 on that lattice).
 
   (a) `fixedW w d n`           "{:w.df}".format(n/10^d);  `parseDec?` = `float()` on such a literal
-      `reprDec d n`            `str(float)` (shortest repr) on the lattice, 1e-4 ≤ |v| < 1e16 or v = 0
+      `reprFloat ec d v`       `str(float)` (shortest repr) of ±mag/10^d: positional, or exponent notation below 1e-4 / from 1e16
   (b) `writeToFile` / `readCsv`   io/track_writer.py `TrackWriter.writeToFile` (O list, stable sort by
       column id, `__printInOrder`), io/track_reader.py `TrackReader.__readFromCsv`
   (c) `printTime` / `precompile` / `readTimestamp`   core/obs_time.py `__str__`, `__precompileReadFmt`,
@@ -94,10 +94,9 @@ def fixedCore (d : Nat) (n : Int) : Str := fixedCoreS d (SNum.ofInt n)
 def fixedW (w d : Nat) (n : Int) : Str := fixedWS w d (SNum.ofInt n)
 def renderFixed (w d : Nat) (n : Int) : Str := renderFixedS w d (SNum.ofInt n)
 
-/-- `float(s)` on a plain decimal literal `[-]digits[.digits]` (surrounding blanks ignored, as
-`float` does): signed mantissa and number of decimals. `none` is Python's ValueError. -/
-def parseDec? (s0 : Str) : Option (Int × Nat) :=
-  let s := strip s0
+/-- the mantissa part of a float literal, `[-+]digits[.digits]` or `[-+].digits` (no surrounding blanks): signed mantissa and
+number of decimals. `none` is Python's ValueError. -/
+def parseMant? (s : Str) : Option (Int × Nat) :=
   let neg := s.head? == some '-'
   let body := if s.head? == some '-' || s.head? == some '+' then s.drop 1 else s
   let ip := body.takeWhile (· ≠ '.')
@@ -109,16 +108,75 @@ def parseDec? (s0 : Str) : Option (Int × Nat) :=
     some (if neg then -m else m, fp.length)
   | _, _ => none
 
+/-- the exponent marker of a float literal -/
+def isExpChar (c : Char) : Bool := c = 'e' || c = 'E'
+
+/-- the exponent of a float literal: `[-+]digits` -/
+def parseSInt? (s : Str) : Option Int :=
+  if s.head? == some '-' then (parseNat? (s.drop 1)).map (fun n => - (n : Int))
+  else if s.head? == some '+' then (parseNat? (s.drop 1)).map (fun n => (n : Int))
+  else (parseNat? s).map (fun n => (n : Int))
+
+/-- `m / 10^k` times `10^x`, again as mantissa and number of decimals (no rounding: the value is kept exactly) -/
+def scaleDec (m : Int) (k : Nat) (x : Int) : Int × Nat :=
+  if x ≤ 0 then (m, k + x.natAbs)
+  else if x.toNat ≤ k then (m, k - x.toNat) else (m * 10 ^ (x.toNat - k), 0)
+
+/-- `float(s)` on a decimal literal `[-+]digits[.digits][(e|E)[-+]digits]` (surrounding blanks ignored, as `float` does):
+signed mantissa and number of decimals of the exact decimal value (`1.5e-07` is `(15, 8)`, `1.5E+16` is
+`(15000000000000000, 0)`). `none` is Python's ValueError. Outside the model: digit-group underscores, and the
+overflow to `inf` / underflow to `0.0` of exponents beyond the double range (`inf`, `nan` are `floatLit?`). -/
+def parseDec? (s0 : Str) : Option (Int × Nat) :=
+  let s := strip s0
+  match s.dropWhile (fun c => !isExpChar c) with
+  | [] => parseMant? s
+  | _ :: ex =>
+    match parseMant? (s.takeWhile (fun c => !isExpChar c)), parseSInt? ex with
+    | some (m, k), some x => some (scaleDec m k x)
+    | _, _ => none
+
 /-- decimals with trailing zeros removed, keeping at least one: `(d', f')` with `f = f' * 10^(d-d')` -/
 def trimFrac : Nat → Nat → Nat × Nat
   | 0, f => (0, f)
   | 1, f => (1, f)
   | d+2, f => if f % 10 = 0 then trimFrac (d+1) (f / 10) else (d+2, f)
 
-/-- `str(x)` for the float `x = n / 10^d` (`d ≥ 1`) in Python's positional repr range -/
-def reprDec (d : Nat) (n : Int) : Str :=
-  let (d', f') := trimFrac d (n.natAbs % 10 ^ d)
-  (if n < 0 then ['-'] else []) ++ natStr (n.natAbs / 10 ^ d) ++ ['.'] ++ padDigits d' f'
+/-- `str(x)` for the float `x = ±mag / 10^d` (`d ≥ 1`) in Python's positional repr range: integer part, point, the decimals
+without their trailing zeros (at least one) -/
+def reprDecS (d : Nat) (v : SNum) : Str :=
+  let (d', f') := trimFrac d (v.mag % 10 ^ d)
+  (if v.neg then ['-'] else []) ++ natStr (v.mag / 10 ^ d) ++ ['.'] ++ padDigits d' f'
+
+/-- `a` without its trailing decimal zeros (`a > 0`; the fuel `a` is more than enough) -/
+def stripZerosF : Nat → Nat → Nat
+  | 0, a => a
+  | f+1, a => if a ≠ 0 ∧ a % 10 = 0 then stripZerosF f (a / 10) else a
+def stripZeros (a : Nat) : Nat := stripZerosF a a
+
+/-- the digits `a` as the mantissa of the exponent notation: first digit, then (when there are more) a point and the others -/
+def sciMant (a : Nat) : Str :=
+  let k := numDigits a
+  natStr (a / 10 ^ (k - 1)) ++ (if k = 1 then [] else '.' :: padDigits (k - 1) (a % 10 ^ (k - 1)))
+
+/-- the exponent part `e-05`, `e+16` (at least two digits); `ec` is the marker (`e`; `E` after `str.upper()`) -/
+def expText (ec : Char) (x : Int) : Str := [ec, if x < 0 then '-' else '+'] ++ zpad 2 x.natAbs
+
+/-- decimal exponent of the leading digit of `m / 10^d` (`m > 0`) -/
+def sciExp (d m : Nat) : Int := (numDigits m : Int) - 1 - (d : Int)
+
+/-- `float.__repr__` switches to the exponent notation below `1e-4` and from `1e16` (format code `r`: `decpt <= -4 or decpt > 16`) -/
+def useExp (d m : Nat) : Bool := m != 0 && (decide (sciExp d m < -4) || decide (16 ≤ sciExp d m))
+
+/-- `str(x)` / `repr(x)` for ANY finite float `x` whose shortest round-trip decimal is `±mag / 10^d` (`-0.0` is `⟨true, 0⟩`):
+positional (`5.0`, `0.0001`, `9999999999999998.0`) or exponent notation (`1e-05`, `1.9290316747799796e-05`, `1.5e+22`,
+`5e-324`); `ec` is the exponent marker -/
+def reprFloat (ec : Char) (d : Nat) (v : SNum) : Str :=
+  if useExp d v.mag then
+    (if v.neg then ['-'] else []) ++ sciMant (stripZeros v.mag) ++ expText ec (sciExp d v.mag)
+  else if d = 0 then reprDecS 1 ⟨v.neg, v.mag * 10⟩ else reprDecS d v
+
+instance : OfNat SNum n := ⟨⟨false, n⟩⟩
+instance : Neg SNum := ⟨fun v => ⟨!v.neg, v.mag⟩⟩
 
 /-! ### generic string helpers -/
 
@@ -305,8 +363,8 @@ def printInOrder (E N : Str) (U T : Option Str) (afs : Str) (O : List (Int × Na
     | none, none => pure []
   pure (a ++ [sep] ++ b ++ rest ++ afs)
 
-/-- a value of an analytical feature as the writer meets it: a Python `int`, a `float` on the `10^-d` lattice
-(positional `repr`), a `str`, `nan`, `±inf` -/
+/-- a value of an analytical feature as the writer meets it: a Python `int`, a `float` whose shortest decimal is `n / 10^d`
+(any magnitude: `str()` prints it positionally or in exponent notation), a `str`, `nan`, `±inf` -/
 inductive AFVal where
   | int (i : Int)
   | dec (d : Nat) (n : Int)
@@ -318,7 +376,7 @@ inductive AFVal where
 /-- `str(track.getObsAnalyticalFeature(af_name, i))` -/
 def afText : AFVal → Str
   | .int i => intStr i
-  | .dec d n => reprDec d n
+  | .dec d n => reprFloat 'e' d (SNum.ofInt n)
   | .str s => s
   | .nan => "nan".toList
   | .inf neg => if neg then "-inf".toList else "inf".toList
@@ -376,6 +434,11 @@ written by `writeToFile` with the same arguments -/
 def writeToCsvColl (f : CsvFmt) (geo : Bool) (pf : List Tok) (header : Nat) (tracks : List (List Row)) (srid : Str := "ENU".toList) :
     Except String (List Str) :=
   tracks.mapM (fun rows => writeToCsv f geo pf header rows srid)
+
+/-- `TrackWriter.writeToFile(track, path)` with every other argument left at its default (`id_E = id_N = -1`): the branch that
+builds the format `E` in column 0, `N` in column 1, no `U`, no time, separator `,`, no header -/
+def writeToFileDefault (geo : Bool) (pf : List Tok) (rows : List Row) (srid : Str := "ENU".toList) : Except String Str :=
+  writeToFile ⟨0, 1, -1, -1, ','⟩ geo pf 0 0 (rows.map (fun r => (r, []))) srid []
 
 /-- the lines of a text as `readline()` delivers them, without their newline (an empty element is
 an empty line inside the file; the end of the list is end of file) -/
@@ -453,6 +516,13 @@ def readCsv (f : CsvFmt) (rf : List Tok) (header : Nat) (text : Str) : Except St
   let ls ← skipHeader header (fileLines text)
   readLines f rf '#' ls
 
+/-- `TrackReader.readFromCsv(<directory>, …)` = `readFromFile` on a directory: every file of the listing (`texts`, in the order
+`os.listdir` delivers them) is read with the same format; files that give an empty track are skipped; the others make up the
+collection, in listing order -/
+def readCsvDir (f : CsvFmt) (rf : List Tok) (header : Nat) (texts : List Str) : Except String (List (List RRow)) := do
+  let ts ← texts.mapM (readCsv f rf header)
+  pure (ts.filter (fun t => !t.isEmpty))
+
 /-! ### (b') `read_all`: the feature columns
 
 `__readFromCsv(..., read_all=True)`: during the first pass `name_non_special` is overwritten by every header line and
@@ -472,7 +542,7 @@ inductive AFRead where
 def toLower (s : Str) : Str := s.map Char.toLower
 
 /-- `float(s)` on the texts met in feature columns: a decimal literal, or `nan` / `inf` / `infinity` in any case with an
-optional sign; `none` is the ValueError (exponent forms and digit-group underscores are outside the model) -/
+optional sign; `none` is the ValueError (digit-group underscores are outside the model) -/
 def floatLit? (s0 : Str) : Option AFRead :=
   match parseDec? s0 with
   | some v => some (.num v)
@@ -595,12 +665,14 @@ def readCsvAll (f : CsvFmt) (rf : List Tok) (header : Nat) (text : Str) :
 
 /-! ### (e) WKT -/
 
-/-- a planimetric vertex on the lattice -/
-abbrev Pt := Int × Int
+/-- a planimetric vertex: two floats `±mag / 10^d` (negative zero included) -/
+abbrev Pt := SNum × SNum
 
-/-- `Track.toWKT()` for an ENU, Geo or ECEF track whose first two coordinates (E N / lon lat / X Y) are `n / 10^d` -/
-def toWKT (d : Nat) (pts : List Pt) : Str :=
-  "LINESTRING(".toList ++ joinChar ',' (pts.map (fun p => reprDec d p.1 ++ [' '] ++ reprDec d p.2)) ++ [')']
+/-- `Track.toWKT()` for an ENU, Geo or ECEF track whose first two coordinates (E N / lon lat / X Y) are the floats `±mag / 10^d`,
+printed by `str(float)`; `ec` is the exponent marker (`e` as written, `E` once `parseWkt` has upper-cased the text) -/
+def toWKTE (ec : Char) (d : Nat) (pts : List Pt) : Str :=
+  "LINESTRING(".toList ++ joinChar ',' (pts.map (fun p => reprFloat ec d p.1 ++ [' '] ++ reprFloat ec d p.2)) ++ [')']
+def toWKT (d : Nat) (pts : List Pt) : Str := toWKTE 'e' d pts
 
 /-- the vertex loop shared by `parseWkt` and `wktLineStringToObs`: `strip().split(" ")`, `float` of
 the first two (and of a third when there are exactly three) items -/
@@ -751,6 +823,82 @@ def netRead (f : NetFmt) (text : Str) : Except String (List REdge) := do
   let body := recs.drop f.header
   body.mapM (netReadRow f)
 
+/-! ### (e') a csv file with a WKT column: `TrackReader.readFromWkt`
+
+tracklib has no writer for this layout: the file is the one a user writes with `sep.join([uid, tid, track.toWKT()])`, one
+track per line, the WKT text in double quotes or bare. -/
+
+/-- `csv.reader(delimiter=sep, doublequote=dq)` (non-strict): as `csvFields`, with the `doublequote` flag — when it is off, a
+quote met right after the closing quote of a quoted field is kept and the field goes on unquoted -/
+def csvFieldsQ (dq : Bool) (sep : Char) : Str → CsvSt → Str → List Str → List Str
+  | [], st, cur, acc =>
+    match st with
+    | CsvSt.start => if acc.isEmpty then [] else (acc ++ [cur])
+    | _ => acc ++ [cur]
+  | c :: cs, st, cur, acc =>
+    match st with
+    | CsvSt.start =>
+      if c = '"' then csvFieldsQ dq sep cs CsvSt.inQuoted cur acc
+      else if c = sep then csvFieldsQ dq sep cs CsvSt.start [] (acc ++ [cur])
+      else csvFieldsQ dq sep cs CsvSt.inField (cur ++ [c]) acc
+    | CsvSt.inField =>
+      if c = sep then csvFieldsQ dq sep cs CsvSt.start [] (acc ++ [cur])
+      else csvFieldsQ dq sep cs CsvSt.inField (cur ++ [c]) acc
+    | CsvSt.inQuoted =>
+      if c = '"' then csvFieldsQ dq sep cs CsvSt.quoteInQuoted cur acc
+      else csvFieldsQ dq sep cs CsvSt.inQuoted (cur ++ [c]) acc
+    | CsvSt.quoteInQuoted =>
+      if c = '"' ∧ dq = true then csvFieldsQ dq sep cs CsvSt.inQuoted (cur ++ [c]) acc
+      else if c = sep then csvFieldsQ dq sep cs CsvSt.start [] (acc ++ [cur])
+      else csvFieldsQ dq sep cs CsvSt.inField (cur ++ [c]) acc
+
+def csvRecordQ (dq : Bool) (sep : Char) (line : Str) : List Str := csvFieldsQ dq sep line CsvSt.start [] []
+
+/-- the arguments of `readFromWkt(path, id_geom, id_user, id_track, separator, h, doublequote=…)` (−1: column not read) -/
+structure WktFmt where
+  idWkt : Nat
+  idUser : Int
+  idTrack : Int
+  sep : Char
+  header : Nat
+  dq : Bool
+
+/-- a track as `readFromWkt` returns it: `uid` / `tid` when their column is read, the vertices -/
+structure WTrack where
+  uid : Option Str
+  tid : Option Str
+  pts : List (Dec × Dec × Dec)
+  deriving DecidableEq, Repr
+
+/-- one record of `__readFromWkt`: `parseWkt(fields[id_wkt])`, then `fields[id_user]`, `fields[id_track]` -/
+def wktReadRow (f : WktFmt) (fields : List Str) : Except String WTrack := do
+  let w ← nth fields f.idWkt
+  let pts ← parseWkt w
+  let uid ← if f.idUser ≥ 0 then (do let u ← nth fields f.idUser.toNat; pure (some u)) else pure none
+  let tid ← if f.idTrack ≥ 0 then (do let t ← nth fields f.idTrack.toNat; pure (some t)) else pure none
+  pure ⟨uid, tid, pts⟩
+
+/-- `TrackReader.readFromWkt` on a file text: `next(reader)` `header` times (StopIteration when the file is shorter), then one
+track per non-empty record -/
+def readWktFile (f : WktFmt) (text : Str) : Except String (List WTrack) := do
+  let recs := (fileLines text).map (fun l => csvRecordQ f.dq f.sep (l.filter (fun c => c ≠ '\n' ∧ c ≠ '\r')))
+  if recs.length < f.header then throw "StopIteration" else
+  ((recs.drop f.header).filter (fun r => !r.isEmpty)).mapM (wktReadRow f)
+
+/-- the three columns of a line in file order: the WKT text at position `pw`, the user id at `pu`, the track id at `pt` -/
+def wktCols (pw pu pt : Nat) (uid tid w : Str) : List Str :=
+  (List.range 3).map (fun j => if j = pw then w else if j = pu then uid else if j = pt then tid else [])
+
+/-- a line of the file: `sep.join(columns)`, the WKT text of `track.toWKT()` in double quotes (`quoted`) or bare -/
+def wktFileLine (sep : Char) (quoted : Bool) (pw pu pt : Nat) (d : Nat) (t : Str × Str × List Pt) : Str :=
+  joinChar sep (wktCols pw pu pt t.1 t.2.1 (if quoted then ['"'] ++ toWKT d t.2.2 ++ ['"'] else toWKT d t.2.2))
+
+/-- the file: an optional header line naming the columns, then one line per track (`blank`: an empty line after each) -/
+def wktFile (sep : Char) (hdr quoted blank : Bool) (pw pu pt : Nat) (d : Nat) (tracks : List (Str × Str × List Pt)) : Str :=
+  let h := if hdr then [joinChar sep (wktCols pw pu pt "user".toList "track".toList "wkt".toList)] else []
+  let ls := (tracks.map (fun t => [wktFileLine sep quoted pw pu pt d t] ++ (if blank then [[]] else []))).flatten
+  ((h ++ ls).map (· ++ ['\n'])).flatten
+
 /-! ### (f) GPX -/
 
 structure GRow where
@@ -783,6 +931,15 @@ def gpxLines (name : Str) (rows : List GRow) : List Str :=
 contains the current time); coordinates `{:3.8f}` of `n / 10^8`, zone 0 (`Z`), time printed with
 `4Y-2M-2DT2h:2m:2s` -/
 def gpxBody (name : Str) (rows : List GRow) : Str := ((gpxLines name rows).map (· ++ ['\n'])).flatten
+
+/-- the lines of one track inside a GPX file -/
+def trkLines (name : Str) (rows : List GRow) : List Str :=
+  [lTrk, lName name, lSeg] ++ (rows.map ptLines).flatten ++ [lEndSeg, lEndTrk]
+
+/-- `writeToGpx(collection, path)` (`oneFile=True`, the default) for a collection of tracks `(tid, points)`: one `<trk>` element
+per track in the order of the collection, then `</gpx>` (from the first `<trk>` line on) -/
+def gpxBodyColl (tracks : List (Str × List GRow)) : Str :=
+  (((tracks.map (fun t => trkLines t.1 t.2)).flatten ++ [lEndGpx]).map (· ++ ['\n'])).flatten
 
 /-! `writeToGpx(..., af=True)`: after `<time>` every track point carries an `<extensions>` block with one line per
 analytical feature of the track, `<name>str(value)</name>` -/
